@@ -1,6 +1,7 @@
 import LyModel.Iff.Model
 import LyModel.Iff.Range
 import LyModel.Generated.IffSrc
+import LyModel.Compile.Drv
 /-! driver ops of component `iff` (if-feature compiler/evaluator and range/length restrictions) -/
 namespace LyModel.Iff.Drv
 open LyModel LyModel.Iff
@@ -47,6 +48,9 @@ def parseIntStr (s : String) : Option Int :=
 
 def handle (op : String) (args : List String) : String :=
   match op, args with
+  | "cdump", a => Compile.Drv.handle "cdump" a        -- schema-compiler core (lean/LyModel/Compile), same property (C11)
+  | "cflat", a => Compile.Drv.handle "cflat" a
+  | "cexpand", a => Compile.Drv.handle "cexpand" a
   | "iffcompile", [ver, envh, exprh] =>
     match Hex.dec envh, Hex.dec exprh with
     | some env, some e =>
